@@ -558,7 +558,38 @@ def c02(ctx):
     )
 
 
-PROPS = {"C01": c01, "C02": c02, "C08": c08, "C06": c06, "C15": c15, "C18": c18, "C12": c12, "C07": c07, "C09": c09, "C09": c09, "C10": c10, "C11": c11, "C13": c13, "C14": c14, "C05": c05, "C20": c20, "C16": c16, "C17": c17, "C04": c04, "C03": c03}
+def c19(ctx):
+    prog = ctx.prog("dev")
+    RR.rule_c19_indexes(ctx, prog)
+    RR.rule_c19_fraction_monotone(ctx, prog)
+    RR.rule_r26_ranges(ctx, prog)
+    # the strategy table (Lower/Higher return their neighbour, Nearest switches once at fract = 0.5) and the lookup of the
+    # neighbours in the bulk routine; the neighbours are the order statistics (bulk selection proved: R25 on R22)
+    RT.rule_c01_interpolation(ctx, prog)
+    RSG.rule_r25_bulk_selection(ctx, prog)
+    RSG.rule_r22_partition(ctx, prog)
+    eff = RE.Effect(ctx, prog, "R4")
+    for n in ("partition_mut", "get_many_from_sorted_mut"):
+        eff.add_entry(prog.method("Sort1dExt", n), [1])
+    eff.run()
+    ctx.floor("R4", eff.n_swaps, 2, "swap sites")
+    return dict(
+        level="other",
+        explanation="Order laws of the quantiles, decided clause by clause on the extracted formulas (exact arithmetic; float rounding not "
+                    "modelled): (R27) lower_index/higher_index are floor/ceil of ONE quantity x = q·(len−1), which is non-decreasing in q "
+                    "(monotonicity typing with len−1 ≥ 0), 0 at q = 0 and len−1 at q = 1, and the fraction is fract of the same x; every "
+                    "strategy is non-decreasing in the fraction at fixed neighbours lower ≤ higher; (R26) for every strategy and element-type "
+                    "family lower ≤ result ≤ higher, and with higher = lower the result is exactly lower (linear-bound range analysis) – so "
+                    "Lower ≤ {Nearest, Midpoint, Linear} ≤ Higher, all coincide when x is integral, q = 0 / q = 1 return the minimum / maximum; "
+                    "(R19/R13) the strategy table and the lookup of both neighbours in one map; (R25/R22/R4) the neighbours are the order "
+                    "statistics of the lane, a function of its multiset only – hence invariance under permutation of the lane and, with the "
+                    "above, monotonicity in q across segments (S(q1) ≤ higher(q1) ≤ lower(q2) ≤ S(q2)). The relabelling clause for "
+                    "Lower/Higher/Nearest is a parametricity fact: a type-level witness (thorough tier) instantiates them with an element type "
+                    "that offers only Ord + Clone. Overflow of intermediates breaks bracketing for signed/float lanes: defect D8, known finding.",
+    )
+
+
+PROPS = {"C19": c19, "C01": c01, "C02": c02, "C08": c08, "C06": c06, "C15": c15, "C18": c18, "C12": c12, "C07": c07, "C09": c09, "C09": c09, "C10": c10, "C11": c11, "C13": c13, "C14": c14, "C05": c05, "C20": c20, "C16": c16, "C17": c17, "C04": c04, "C03": c03}
 
 
 # rules with a planted must-fire positive in /verif/fixtures, per property (run on every check)
@@ -566,6 +597,7 @@ FIXTURE_RULES = {
     "C02": ["R22", "R18", "R4", "R24", "R25"],
     "C08": ["R8", "R1"],
     "C01": ["R19", "R8", "R9", "R6", "R25", "R22", "R26"],
+    "C19": ["R26", "R25", "R22", "R19", "R4"],
     "C03": ["R4", "R1"], "C04": ["R3", "R14", "R1", "R21"], "C05": ["R6", "R1"], "C06": ["R9", "R1", "R8", "R19"], "C07": ["R9", "R8", "R6", "R19"],
     "C09": ["R9", "R1", "R19", "R6"], "C10": ["R10", "R9", "R1", "R6"], "C11": ["R8", "R9"], "C12": ["R6", "R8"], "C13": ["R9"],
     "C14": ["R8", "R6"], "C15": ["R18", "R5", "R22"], "C16": ["R5", "R18"], "C17": ["R6"], "C18": ["R9", "R8", "R6", "R19"], "C20": ["R1", "R8", "R9"],
